@@ -67,9 +67,9 @@ func autoLeaf(kind, form, i int) *model.Leaf {
 func runC11(tier string) int {
 	r := harness.NewRun("C11", "model_checking", tier, budget(tier, 45*time.Second, 12*time.Minute))
 	copts := &comp.Opts{Cmd: autoCfg}
-	maxK, maxDeco := 3, 1
+	maxK, maxDeco := 4, 1
 	if tier == "thorough" {
-		maxK, maxDeco = 4, 2
+		maxK, maxDeco = 5, 2
 	}
 	type job struct {
 		k      int
